@@ -181,6 +181,10 @@ func (c *compiler) evalUserFunction(node *userFunction, args []ast.Expression) (
 	// the arguments belong to the caller: evaluate all of them before the
 	// first parameter is bound, or an argument named like an earlier
 	// parameter would see that parameter instead of the caller's variable
+	if len(args) < len(node.Parameters) {
+		return nil, fmt.Errorf("too few arguments (%d for %d)", len(args), len(node.Parameters))
+	}
+
 	vals := make([]interface{}, len(node.Parameters))
 	for i := range node.Parameters {
 		v, err := c.evalExpression(args[i])
